@@ -34,6 +34,8 @@ type rtCheck struct {
 	Floor      [2]int
 	// NonTrivial decides whether an exchange counts as non-trivial for this property.
 	NonTrivial func(ex *rt.Exchange) bool
+	// AllowFiles lets the generator emit file servers (not drivable, but mountable).
+	AllowFiles bool
 	// PostDesign is called once per design with its setup record (mounted routes) — used by C07.
 	PostDesign func(run *vc.Run, d *pipeline.Design, setup map[string]any)
 }
@@ -120,7 +122,10 @@ func runRuntime(c *rtCheck) {
 			run.Infra("cannot load replay: %v", err)
 			run.Finish()
 		}
-		cs := []*rt.Case{w.Exchange.Case}
+		var cs []*rt.Case
+		if w.Exchange != nil {
+			cs = []*rt.Case{w.Exchange.Case}
+		}
 		runDesigns(run, c, filepath.Join(sc, "replay"), []*spec.Spec{w.Spec}, func(d *pipeline.Design) []*rt.Case { return cs }, true)
 		run.Finish()
 	}
@@ -135,7 +140,7 @@ func runRuntime(c *rtCheck) {
 		var specs []*spec.Spec
 		for i := 0; i < n; i++ {
 			prof := c.Profiles[(idx+i)%len(c.Profiles)]
-			s := gen.Generate(run.Rand(2, uint64(idx+i)), fmt.Sprintf("%d", idx+i), gen.Opts{Profile: prof, Runtime: true, Thorough: run.Thorough()})
+			s := gen.Generate(run.Rand(2, uint64(idx+i)), fmt.Sprintf("%d", idx+i), gen.Opts{Profile: prof, Runtime: true, Thorough: run.Thorough(), Files: c.AllowFiles})
 			s.AddFeature("profile-" + prof)
 			specs = append(specs, s)
 		}
@@ -273,6 +278,7 @@ func runDesigns(run *vc.Run, c *rtCheck, dir string, specs []*spec.Spec, mk func
 			}
 		}
 		conclusive := 0
+		oracle.RegisterDesign(d.ID, d.Dir)
 		for _, ex := range r.exs {
 			run.Eval(1)
 			countTaps(run, ex)
